@@ -8,8 +8,10 @@ vars == <<h, g, n, faults, last, hist>>
 
 \* (the last two: a statement fails AND the rollback that cleans up after it fails - the error path of an error path)
 FaultLists == {<<>>, <<TRUE>>, <<FALSE, TRUE>>, <<FALSE, FALSE, TRUE>>, <<TRUE, TRUE>>, <<FALSE, TRUE, TRUE>>}
-Ops == [op : {"start", "stop", "close", "abort"}, k : {"-"}, v : {0}, fl : FaultLists]
-       \cup [op : {"put"}, k : Keys, v : Vals, fl : FaultLists] \cup [op : {"get"}, k : Keys, v : {0}, fl : FaultLists]
+Ops0 == [op : {"start", "stop", "close", "abort"}, k : {"-"}, v : {0}, fl : FaultLists, soft : {FALSE}]
+       \cup [op : {"put"}, k : Keys, v : Vals, fl : FaultLists, soft : BOOLEAN] \cup [op : {"get"}, k : Keys, v : {0}, fl : FaultLists, soft : BOOLEAN]
+\* (a soft failure is a property of a failing statement: only operations with a fault planned come in both kinds)
+Ops == {o \in Ops0 : o.soft => \E i \in DOMAIN o.fl : o.fl[i]}
 NF(fl) == Cardinality({i \in DOMAIN fl : fl[i]})
 OpenTx(s) == Cardinality({i \in DOMAIN s.txs : ~s.txs[i].done})
 
@@ -24,7 +26,7 @@ Next == /\ n < MaxOps
                 /\ g' = GhostStep(g, op, r.res)
                 /\ n' = n + 1 /\ faults' = faults + NF(op.fl)
                 /\ last' = [op |-> [op |-> op.op, k |-> op.k, v |-> op.v], g |-> g, res |-> r.res, val |-> r.val, log |-> r.s.log, open |-> OpenTx(r.s)]
-                /\ hist' = Append(hist, [op |-> op.op, k |-> op.k, v |-> op.v, fl |-> op.fl, res |-> r.res, val |-> r.val])
+                /\ hist' = Append(hist, [op |-> op.op, k |-> op.k, v |-> op.v, fl |-> op.fl, soft |-> op.soft, res |-> r.res, val |-> r.val])
 Spec == Init /\ [][Next]_vars
 View == <<h, g, n, faults, last>>
 Emit == PrintT(<<"MBT", ToJson(hist')>>)
@@ -35,4 +37,5 @@ C13_ErrorReported == ErrorReportedP(last.log, last.res)
 C13_NoWedge       == ~last.g.kf => NoWedgeP(last.g, last.op, last.res, last.val, last.log)
 C13_EndedOnce     == ~g.kf => EndedOnceP(g, last.open)
 C13_Multi         == ~last.g.kf => MultiP(last.g, last.op, last.res, last.log)
+C13_NoUnackedDurable == NoUnackedDurableP(g, h.committed)
 =============================================================================
